@@ -783,7 +783,10 @@ template <typename ITV> struct Engine {
           hx::distinct(pol + "|" + op + RELN[r1] + (two ? RELN[r2] : "") + "|" + cfg(base) + "|" + cfg(r));
           std::vector<RI> from; from.push_back(want); from.push_back(base.empty ? base : r_join(base, r_join(p1, p2)));
           check_set(op, std::string("rel") + RELN[r1] + (two ? RELN[r2] : ""), base, p1, r, from,
-                    [&](const Q& m) { return mem(base, m) && holds(m, r1, q1) && (!two || holds(m, r2, q2)); }, kind == K_EXACT_OC, want);
+                    [&](const Q& m) { return mem(base, m) && holds(m, r1, q1) && (!two || holds(m, r2, q2)); },
+                    // add_constraint(c) is documented as intersection with build(c), and build(x != v) is the whole line:
+                    // the result encloses but is not the exact refinement, so exactness is not demanded for '!='
+                    kind == K_EXACT_OC && !(addc && std::string(RELN[r1]) == "!="), want);
         }
       }
       else if (k < 925) {
